@@ -164,7 +164,7 @@ func Harness_C05_verify() {
 //verif:opt maxpaths=30000 reach=rejected,accepted
 func Harness_C05_malformed() {
 	key := &ecdsa.PublicKey{}
-	n := vChoice("sig-len", 9)
+	n := vChoice("sig-len", 9+2*vTier())
 	sig := vBytes("sig", n)
 	c05Verdict = true
 	c05Calls = 0
